@@ -182,6 +182,20 @@ def property_script(seed):
               "a.b=flat"):
         s.op("vnaproperty_set $pr %s" % qs(d))
     s.op("dump_property $pr")
+    # a list filled to exactly the size of its vector (8, then 16), then an
+    # insertion below the end: the vector has to grow while an element is
+    # being placed in the middle; a map grown past its first rehash
+    for i in range(8):
+        s.op("vnaproperty_set $pr %s" % qs("full[+]=v%d" % i))
+    s.op("vnaproperty_set $pr \"full[2+]=ins\"")
+    for i in range(7):
+        s.op("vnaproperty_set $pr %s" % qs("full[+]=w%d" % i))
+    s.op("vnaproperty_set $pr \"full[0+]=first\"")
+    s.op("vnaproperty_set_subtree $pr \"full[5+]\" \"k=v\"")
+    for i in range(20):
+        s.op("vnaproperty_set $pr %s" % qs("big.key%d=%d" % (i, i)))
+    s.op("vnaproperty_delete $pr \"full[3]\"")
+    s.op("dump_property $pr")
     s.op("vnaproperty_set_kv $pr \"kv.key\" \"value with = sign\"")
     for d in ("a", "list", "m", ".", "deep[1]"):
         s.op("vnaproperty_type $pr %s" % qs(d))
